@@ -20,7 +20,7 @@ def torows(x):
 def rows_eq(g,exp):
     if g is None or len(g)!=len(exp): return False
     return all(aeq(x,y) for x,y in zip(g,exp))
-for it in range(60000):
+for it in range(int(__import__("os").environ.get("RECON_N", 60000))):
     kind=random.choice(['2d','rag','rag'])
     dt=random.choice(D); nr=random.randint(1,4)
     if kind=='2d':
